@@ -82,13 +82,14 @@ def step (line : String) : String :=
       match shape font text.toList 100000 with
       | .error w => "fault " ++ w
       | .ok none => "trie=" ++ String.join ((ps.splitOn "|").zip passes |>.map fun (src, p) => trieBit p (parsePats src)) ++ " noseg"
-      | .ok (some (seg, chars)) =>
+      | .ok (some (cx, chars)) =>
+        let seg := cx.seg
         let l := streamOf seg
         let slots := l.map fun i =>
           let sl := seg.get i
           s!"s:{sl.gid},{sl.before},{sl.after},{sl.original},{posIn l sl.parent},{posIn l sl.child}"
         let tb := String.join ((ps.splitOn "|").zip passes |>.map fun (src, p) => trieBit p (parsePats src))
-        String.intercalate " " (s!"trie={tb} n={seg.numGlyphs} walk={l.length}" :: slots)
+        String.intercalate " " (s!"trie={tb} loop={cx.vIter}/{cx.vBound} passes={cx.vCalls} exceeded={if cx.vExceeded then 1 else 0} n={seg.numGlyphs} walk={l.length}" :: slots)
     | _, _, _, _, _ => "bad-op"
   | _, _, _, _, _, _ => "bad-op"
 
